@@ -69,10 +69,10 @@ def main():
         pid = f'C{n:02d}'
         src = f'/tmp/mutout_{pid}'
         for var, suffix in (('a', ''), ('b', '_B'), ('c', '_C'), ('d', None), ('e', None),
-                            ('f', None), ('g', None), ('h', None), ('i', None)):
+                            ('f', None), ('g', None), ('h', None), ('i', None), ('j', None), ('k', None)):
             sid = f'{pid}-{var}'
             if suffix is None:          # later rounds: one directory per change
-                src, suffix = f"/tmp/mutout{'2' if var in 'de' else '3' if var in 'fg' else '4'}_{sid}", ''
+                src, suffix = f"/tmp/mutout{'2' if var in 'de' else '3' if var in 'fg' else '4' if var in 'hi' else '5'}_{sid}", ''
             else:
                 src = f'/tmp/mutout_{pid}'
             pf = f'{src}/patch{suffix}.diff'
